@@ -100,15 +100,15 @@ class World:
         if want[0] == "method-any":
             return got[0] == "method" and got[1] in want[1]
         return got == want
-    def check_all_calls(self):
-        return all(self.check_call(i) for i in range(4))
-    def hierarchy_consistent(self):
+    def check_all_calls(self, n=4):
+        return all(self.check_call(i) for i in range(n))
+    def hierarchy_consistent(self, n=4):
         h = self.h.deref()
-        for i in range(4):
+        for i in range(n):
             anc = set(ANCESTORS(h, self.K[i]) or ())
             par = set(PARENTS(h, self.K[i]) or ())
             des = set(DESCENDANTS(h, self.K[i]) or ())
-            for j in range(4):
+            for j in range(n):
                 want_isa = self.isa(i, j)
                 if bool(ISA(h, self.K[i], self.K[j])) is not want_isa:
                     return False
@@ -124,7 +124,7 @@ def DIAG(**k):
 '''
 
 
-def history_spec(n_ops, timeout, first_op=None, perm=None):
+def history_spec(n_ops, timeout, first_op=None, perm=None, first_a=None):
     args = "perm: int, " + ", ".join(f"o{j}: int, a{j}: int, b{j}: int" for j in range(n_ops))
     pre = ["0 <= perm < 24" if perm is None else f"perm == {perm}"]
     for j in range(n_ops):
@@ -132,6 +132,8 @@ def history_spec(n_ops, timeout, first_op=None, perm=None):
         pre += [f"0 <= o{j} < 7", f"a{j} in (0, 1, 2, 4)", f"0 <= b{j} < 3"]
     if first_op is not None:
         pre[1] = f"o0 == {first_op}"
+    if first_a is not None:
+        pre[2] = f"a0 == {first_a}"
     ops = ", ".join(f"(o{j}, a{j}, b{j})" for j in range(n_ops))
     body = f'''    w = World(perm)
     for (o, a, b) in [{ops}]:
@@ -140,7 +142,8 @@ def history_spec(n_ops, timeout, first_op=None, perm=None):
         if not w.check_all_calls():      # a call to every dispatch value after every step
             return False
     return w.hierarchy_consistent()'''
-    name = f"history/len={n_ops}" + (f"/first-op={first_op}" if first_op is not None else "") + (f"/perm={perm}" if perm is not None else "")
+    name = (f"history/len={n_ops}" + (f"/first-op={first_op}" if first_op is not None else "") + (f"/first-key={first_a}" if first_a is not None else "")
+            + (f"/perm={perm}" if perm is not None else ""))
     return Spec(name, harness(args, body, pre=pre, module_code=MODULE, warm=[]), timeout=timeout,
                 bound=f"{n_ops} operations from add/remove/remove-all/prefer/derive/underive/call over 4 dispatch values + :default; "
                       "24 role permutations (= iteration orders of the method map)", meta={"kind": "history"})
@@ -164,7 +167,7 @@ def hierarchy_spec(n_ops, timeout, first):
         elif not w.apply(o, a, b):
             return False
     # checked once at the end: every shorter history is the prefix of one padded with no-op underives
-    return w.check_all_calls() and w.hierarchy_consistent()'''
+    return w.check_all_calls(3) and w.hierarchy_consistent(3)'''
     return Spec(f"hierarchy-history/len={n_ops}/first={'derive' if o0 == 4 else 'underive'}-{a0}-{b0}",
                 harness(args, body, pre=pre, module_code=MODULE, warm=[]), timeout=timeout,
                 bound=f"{n_ops} derive/underive operations over every ordered pair of 3 tags (redundant edges, refused cycles and "
@@ -213,9 +216,14 @@ def run(rep, tier, seed):
     specs = [dominance_spec(to, v) for v in VARIANTS]
     n = 2 if quick else 3
     perms = [0, 9, 14, 23] if quick else [0, 3, 7, 9, 14, 17, 20, 23]
-    specs += [history_spec(n, to, first_op=f, perm=p) for f in range(7) for p in (perms[:2] if quick else perms)]
+    if quick:
+        # one obligation per (first operation, first key): ~250 paths each; one role permutation (the iteration-order question is
+        # the three-candidate scenarios' subject, which cover all 24)
+        specs += [history_spec(n, to, first_op=f, perm=perms[1], first_a=a) for f in range(7) for a in (0, 1, 2, 4)]
+    else:
+        specs += [history_spec(n, to, first_op=f, perm=p) for f in range(7) for p in perms]
     hn = 3 if quick else 4
-    specs += [hierarchy_spec(hn, to, (4, a, b)) for a in range(3) for b in range(3) if a != b]
+    specs += [hierarchy_spec(hn, to * 2 if quick else to, (4, a, b)) for a in range(3) for b in range(3) if a != b]
     rep.bounds = {"history length": n, "derive/underive-only history length": hn, "dispatch values": "3 namespaced keywords + :default in histories, 4 in the three-candidate scenarios", "iteration orders": "24 role permutations"}
     rep.outside = ["Python classes as dispatch values", "longer histories", "vectors of tags"]
     rep.assumptions += ["keyword hashes are fixed (PYTHONHASHSEED=0), so a role permutation determines the method map's iteration order"]
